@@ -450,6 +450,15 @@ class Emit:
         if isinstance(t, TOpaque): return 'void'
         raise NotImplementedError('ctype %r' % t)
 
+    def fname(s, name):
+        """C name of a function symbol: externals that are neither C++-mangled nor harness hooks (vp_*) are libc/OS
+        functions; they get a vpx_ prefix so the generated prototypes (u8* everywhere) never clash with system headers.
+        rt/vp.h supplies default vpx_* definitions; harnesses may override them (stubs with a documented contract)."""
+        n = cname(name)
+        if name in s.M.decls and name not in s.M.funcs and not n.startswith('_Z') and not n.startswith('vp_'):
+            return 'vpx_' + n
+        return n
+
     def sct(s, t):
         """signed C type"""
         return {'u8': 'int8_t', 'u16': 'int16_t', 'u32': 'int32_t', 'u64': 'int64_t', 'u128': '__int128'}[s.ct(t)]
@@ -524,7 +533,7 @@ class Emit:
         if k == 'global':
             n = cname(v.name)
             if v.name in s.M.funcs or v.name in s.M.decls:
-                return '((vp_fn)%s)' % n
+                return '((vp_fn)%s)' % s.fname(v.name)
             return '(&%s)' % n
         if k == 'int':
             if isinstance(t, TInt):
@@ -1180,7 +1189,7 @@ class FnTr:
             if name.startswith('llvm.'):
                 s.intrinsic(name, ret, args, A, d); return
             if s.thread and callee in s.M.funcs: s.atomic_callees.add(name)
-            emit('%s%s(%s);' % (pre, cname(callee), ', '.join(A)))
+            emit('%s%s(%s);' % (pre, E.fname(callee), ', '.join(A)))
         else:
             sig = '%s (*)(%s)' % (E.ct(ret), ', '.join(E.ct(t) for t, v in args) or 'void')
             emit('%s((%s)%s)(%s);' % (pre, sig, E.lname(callee), ', '.join(A)))
@@ -1233,7 +1242,7 @@ class FnTr:
 PRELUDE = r'''
 #include <stdint.h>
 #include <stddef.h>
-#include <string.h>
+void *memcpy(void *, const void *, size_t); void *memset(void *, int, size_t); void *memmove(void *, const void *, size_t);
 typedef uint8_t u8; typedef uint16_t u16; typedef uint32_t u32; typedef uint64_t u64; typedef unsigned __int128 u128;
 typedef void (*vp_fn)(void);
 typedef void vp_fnty(void);
@@ -1265,7 +1274,12 @@ def main():
     import json, os
     args = sys.argv[1:]
     TSO = '--tso' in args
-    pos = [a for a in args if not a.startswith('--')]
+    pos = []
+    skip = False
+    for a in args:
+        if skip: skip = False; continue
+        if a in ('--thread', '--cut'): skip = True; continue
+        if not a.startswith('--'): pos.append(a)
     src, base = pos[0], pos[1]
     threads = collections.OrderedDict()
     it = iter(args)
@@ -1277,9 +1291,15 @@ def main():
             else:
                 threads[spec] = ['']
     M = parse_module(open(src).read())
+    cuts = [args[i + 1] for i, a in enumerate(args) if a == '--cut']
+    summary = {'functions': [], 'threads': {}, 'decls': [], 'cut': []}
+    for name in list(M.funcs):
+        if any(c in name for c in cuts):
+            f = M.funcs.pop(name)
+            M.decls[name] = (f.ret, [a[0] for a in f.args], f.va)
+            summary['cut'].append(name[1:])
     E = Emit(M, {})
     bodies = []; protos = []
-    summary = {'functions': [], 'threads': {}, 'decls': []}
     for name, f in M.funcs.items():
         if name[1:] in threads:
             for sfx in threads[name[1:]]:
@@ -1302,7 +1322,7 @@ def main():
     for name, (ret, args_, va) in M.decls.items():
         if name[1:].startswith('llvm.'): continue
         summary['decls'].append(name[1:])
-        protos.append('%s %s(%s%s);' % (E.ct(ret), cname(name), ', '.join(E.ct(a) for a in args_) or ('void' if not va else ''), ', ...' if va else ''))
+        protos.append('%s %s(%s%s);' % (E.ct(ret), E.fname(name), ', '.join(E.ct(a) for a in args_) or ('void' if not va else ''), ', ...' if va else ''))
     globs = []
     gdecl = []
     for name, (ty, init, const) in M.globals.items():
